@@ -375,6 +375,11 @@ def c08_consts(w, inp):
             # NaN in one part: the other part still distinguishes (seeded change C08-r3)
             comp += [complex(v.real, 7.0) if v.real != v.real else complex(7.0, v.imag), complex(float('nan'), float('nan')), (v, 1), (complex(float('nan'), 3.0), 1)]
     vals = vals + comp
+    # containers whose items are ==-equal but of different types, at every depth: (1,) / (True,) / (1.0,), all-"simple"
+    # tuples (str, bytes, int, None, Ellipsis only) included (seeded change C08-r8: a fast path that keys such tuples by
+    # themselves), and the twisted twins of the generated containers
+    k = rng.randrange(len(TWISTED))
+    vals += (TWISTED + TWISTED)[k:k + 6] + [t for v in vals[:6] if isinstance(v, (tuple, frozenset)) for t in twist(v)][:6]
     cs = [Constant(v) for v in vals] + [Constant(v, 3) for v in vals[:3]]
     keys = pykey_partition([c.constant for c in cs])
     w.stats['constants'] += len(cs)
@@ -399,6 +404,29 @@ def c08_consts(w, inp):
         if a == b and b == c and not a == c:
             w.violation('C08:eq-not-transitive', inp, {})
     w.sample({'constants': [ser.s_inner(c.constant)[:60] for c in cs[:4]]})
+
+
+TWISTED = [(1,), (True,), (1.0,), (0, 'a'), (False, 'a'), (0.0, 'a'), ((1, 2), 'k'), ((True, 2), 'k'), (0, 1), (False, True),
+           (None, 1, b'x'), (None, True, b'x'), (Ellipsis, 0), (Ellipsis, False), frozenset({1}), frozenset({True}), frozenset({1.0}),
+           frozenset({0, 'a'}), frozenset({False, 'a'}), (frozenset({1}), 2), (frozenset({True}), 2), ('a', (b'b', (1,))), ('a', (b'b', (True,))),
+           (-1, 2 ** 70), (-1, 2 ** 70 + 0.0)]
+
+
+def twist(v):
+    """copies of a tuple / frozenset in which one item is replaced by an ==-equal value of another type"""
+    out = []
+    items = list(v)
+    for i, x in enumerate(items):
+        alts = []
+        if isinstance(x, bool): alts = [int(x), float(x)]
+        elif isinstance(x, int) and x in (0, 1): alts = [bool(x), float(x)]
+        elif isinstance(x, int) and abs(x) < 2 ** 53: alts = [float(x)]
+        elif isinstance(x, float) and x == x and x in (0.0, 1.0): alts = [int(x), bool(x)]
+        elif isinstance(x, (tuple, frozenset)): alts = twist(x)[:1]
+        for a in alts:
+            y = items[:i] + [a] + items[i + 1:]
+            out.append(tuple(y) if isinstance(v, tuple) else frozenset(y))
+    return out
 
 
 def json_copy(v):
